@@ -1,9 +1,16 @@
 import NasdaqModel.Py.Basic
+import NasdaqModel.Model.GenFix
 /-
-Model for C17 — histories of code-generator invocations.
+Model for C17 — histories of code-generator invocations, at the granularity of the generator API.
 
-World = process state (the class-level registries that survive between two invocations in one interpreter)
+World = process state (the class-level registries that survive between two invocations in one interpreter, the FIX type tables
+        as far as they are shared between calls, and the generator objects that were constructed and are still alive)
       × abstract file system (path ↦ list of chunks; one chunk = the text one `op.write(rendered template)` produced).
+
+An invocation of an entry point is `construct` (parse the spec, build the generator object — the FIX generator evaluates its
+template context right there, the ASN.1 generator empties its output directory) followed by `generate` (render and write);
+both halves are events of their own (`Ev.construct k i`, `Ev.generate k`), so histories interleave the halves of several
+generators as a build script that prepares all generators and then writes them does.
 
 Transcribed from
   common/message/parser.py     `Parser.parse` (class-level `FieldDef.Definitions`, replaced only at a `fielddef-root`)
@@ -11,6 +18,8 @@ Transcribed from
   fix/parser/definitions.py    `Group.get_codegen_context` (class-level `Group.Contexts`, `Group.UniqueNameCounter`),
                                `Definitions.get_codegen_context`, `_client_session`
   fix/parser/generator.py      `Generator.__attrs_post_init__`, `generate`, `_generate`  (open(op_file, 'a'))
+  fix/parser/version_types.py  `get_supported_types` and the four table builders (tables themselves: Model/GenFix.lean)
+  fix/parser/parser.py         `parse`: `get_supported_types(version)`, then `types[field.get('type')]` per declared field
   asn1_app/codegen.py          `Ans1Generator.__attrs_post_init__` (shutil.rmtree(op_dir)), `generate`, `_copy_asn1_files`
   tools/new_project.py         `create`, `_write_app_xml` (kept when it exists), `_write_pyproject`, `_write_tox` ('a')
 
@@ -98,7 +107,8 @@ inductive Chunk where
   | soupModule (impl : Impl) (app : Str) (specId : Nat) (msgs : List Nat) (resolved : List Nat)
   /-- init.mustache of common/message and of asn1_app: `from .<module> import *` -/
   | initLine (module : Str)
-  | fixFields (specId : Nat) (fields : List Nm) (counts : List Nm)
+  /-- fields.mustache: every declared field with the class its type name was *resolved to* through the version's type table -/
+  | fixFields (specId : Nat) (fields : List Nm) (counts : List Nm) (types : List GenFix.TyCls)
   /-- groups.mustache: module_prefix and **the whole of `Group.Contexts`** -/
   | fixGroups (modPrefix : Str) (ctxs : List GCtx)
   /-- bodies.mustache / messages.mustache: module_prefix, the message, and the unique names handed to its top-level groups -/
@@ -151,27 +161,6 @@ def dirView (fs : FS) (d : Dir) : Str → Option (List Chunk) := fun n => read f
 def dirOnly (fs : FS) (d : Dir) (names : List Str) : Bool :=
   fs.all fun e => !(e.1.1 = d) || names.contains e.1.2
 
-/-! ## process state -/
-
-structure ProcState where
-  /-- `FieldDef.Definitions` (common/message/parser.py:47): name ↦ datatype, in dict insertion order -/
-  fieldDefs : List (Nm × Nat)
-  /-- `Group.Contexts` (fix/parser/definitions.py:92) -/
-  contexts : List GCtx
-  /-- `Group.UniqueNameCounter` (definitions.py:93): name ↦ how many unique names were handed out -/
-  counter : List (Nm × Nat)
-  deriving DecidableEq, Repr, Inhabited
-
-/-- a fresh interpreter -/
-def st0 : ProcState := ⟨[], [], []⟩
-
-structure World where
-  st : ProcState
-  fs : FS
-  deriving DecidableEq, Repr, Inhabited
-
-def w0 : World := ⟨st0, []⟩
-
 /-! ## the switchable behaviours -/
 
 structure Semantics where
@@ -187,12 +176,20 @@ structure Semantics where
   pyprojMode : Mode
   /-- `_write_tox` -/
   toxMode : Mode
+  /-- how `Group.Contexts` is emptied (when `resetContexts`): `true` = `Group.Contexts = []` binds the class attribute to a NEW
+      list, so the list a generator object captured in its context (`'groups': Group.Contexts`) is never touched again;
+      `false` = `Group.Contexts.clear()` empties the one list every generator object constructed in the process refers to -/
+  rebindContexts : Bool
+  /-- the four builders of version_types.py make a new dict on every call (`false`: they are `functools.cache`d, and the
+      4.4 / 5.0 / 5.0SP2 builders `.update()` the one cached 4.2 dict in place) -/
+  freshTypeTables : Bool
   deriving DecidableEq, Repr, Inhabited
 
-/-- the code as it was before a5da5b2 / 6c43d46 / 388f25f (and as `new_project` still is) -/
-def actual : Semantics := ⟨.append, false, false, false, .append, .append⟩
+/-- the code as it was before a5da5b2 / 6c43d46 / 388f25f (and as `new_project` still is): the one `Group.Contexts` list is
+    never emptied nor rebound; the type tables were always built per call -/
+def actual : Semantics := ⟨.append, false, false, false, .append, .append, false, true⟩
 /-- the repaired behaviour proposed in /verif/fixes/C17-*.md -/
-def fixed : Semantics := ⟨.truncate, true, true, true, .ifAbsent, .truncate⟩
+def fixed : Semantics := ⟨.truncate, true, true, true, .ifAbsent, .truncate, true, true⟩
 /-- the three generators repaired, `new_project` left as it is (if that one stays a known finding) -/
 def fixedGen : Semantics := { fixed with pyprojMode := .append, toxMode := .append }
 /-- **the one-line switch**: what the library is claimed to do today (compared with it on every run) -/
@@ -200,7 +197,7 @@ def current : Semantics := fixedGen
 
 /-- the generators write their files from scratch and start from clean class-level state -/
 def pureGen (s : Semantics) : Bool :=
-  s.genMode = .truncate && s.resetFieldDefs && s.resetContexts && s.resetCounter
+  s.genMode = .truncate && s.resetFieldDefs && s.resetContexts && s.resetCounter && s.rebindContexts && s.freshTypeTables
 
 def pureProj (s : Semantics) : Bool := s.pyprojMode = .ifAbsent && s.toxMode = .truncate
 
@@ -240,12 +237,15 @@ structure Asn1Spec where
   files : List (Str × Nat)
   deriving DecidableEq, Repr, Inhabited
 
-/-- the options `app-name`, `prefix`, `init-file` / `no-init-file`, `op-dir` -/
+/-- the options `app-name`, `prefix`, `init-file` / `no-init-file`, `op-dir`, and (ITCH / OUCH / SQF entry points only; the
+    others ignore it) `override-messages` / `no-override-messages` (`true` is the entry points' default).
+    `--fix-version` is `FixSpec.version`; `--pdu-name` and `--package-name` are arguments of `Inv.asn1`. -/
 structure GenOpts where
   app : Str
   pfx : Str
   init : Bool
   dir : Dir
+  override : Bool
   deriving DecidableEq, Repr, Inhabited
 
 inductive Inv where
@@ -276,6 +276,10 @@ def Inv.retarget (d : Dir) : Inv → Inv
 inductive Ev where
   | inv (i : Inv)
   | newProcess            -- the following invocations run in a fresh interpreter (file system kept)
+  /-- first half of an entry point: parse the spec and construct generator object number `k` (nothing is written) -/
+  | construct (k : Nat) (i : Inv)
+  /-- second half: `generate()` of generator object `k` -/
+  | generate (k : Nat)
   deriving Repr, Inhabited
 
 /-! ## plans: what an invocation writes -/
@@ -327,6 +331,65 @@ def lastByName : List RelAction → Str → Option (List Chunk)
     | some cs => some cs
     | none => if a.name = n then some a.chunks else none
 
+/-! ## process state -/
+
+/-- `fix/parser/version_types.py` when its builders are `functools.cache`d: there is then ONE dict object — the one the
+    cached `_fix_42_version_types()` returned — which the 4.4 / 5.0 / 5.0SP2 builders update in place the first (only) time
+    each of them runs, and which all four hand out from then on.  (Unused when the builders make a new dict per call.) -/
+structure TCache where
+  /-- the content of that dict object; `none`: `_fix_42_version_types()` has not run yet -/
+  dict : Option GenFix.TypeTable
+  /-- `_fix_44_version_types()` / `_fix_50_version_types()` / `_fix_502_version_types()` ran (their result is cached) -/
+  done44 : Bool
+  done50 : Bool
+  done502 : Bool
+  deriving DecidableEq, Repr, Inhabited
+
+/-- a generator object that was constructed and not yet garbage: what its `generate()` will write -/
+structure GenObj where
+  /-- `self.op_dir` -/
+  dir : Dir
+  /-- the files `generate()` writes, with the context captured at construction -/
+  acts : List RelAction
+  modules : List Str
+  /-- FIX only.  `self._context['groups']` is *the list object* `Group.Contexts` was bound to when the generator was constructed.
+      `none`: nothing refers to that object but this generator (the class attribute was bound to a new list since, or will be
+      before anything is appended), its content is what `acts` holds.  `some mp`: it is still the class attribute's list —
+      `generate()` renders the groups module (`mp`_groups.py) from whatever `Group.Contexts` holds at that moment. -/
+  sharedGroups : Option Str
+  deriving DecidableEq, Repr, Inhabited
+
+structure ProcState where
+  /-- `FieldDef.Definitions` (common/message/parser.py:47): name ↦ datatype, in dict insertion order -/
+  fieldDefs : List (Nm × Nat)
+  /-- `Group.Contexts` (fix/parser/definitions.py:92) -/
+  contexts : List GCtx
+  /-- `Group.UniqueNameCounter` (definitions.py:93): name ↦ how many unique names were handed out -/
+  counter : List (Nm × Nat)
+  /-- the cached FIX type tables -/
+  types : TCache
+  /-- the live generator objects, by the number the history gives them -/
+  gens : List (Nat × GenObj)
+  deriving DecidableEq, Repr, Inhabited
+
+/-- a fresh interpreter -/
+def st0 : ProcState := ⟨[], [], [], ⟨none, false, false, false⟩, []⟩
+
+structure World where
+  st : ProcState
+  fs : FS
+  deriving DecidableEq, Repr, Inhabited
+
+def w0 : World := ⟨st0, []⟩
+
+def getGen : List (Nat × GenObj) → Nat → Option GenObj
+  | [], _ => none
+  | (j, g) :: rest, k => if j = k then some g else getGen rest k
+
+def setGen : List (Nat × GenObj) → Nat → GenObj → List (Nat × GenObj)
+  | [], k, g => [(k, g)]
+  | (j, h) :: rest, k, g => if j = k then (j, g) :: rest else (j, h) :: setGen rest k g
+
 /-- `dict[name]` on a dict built by `{f.name: f for f in fields}` (a later duplicate wins) -/
 def lookupLast : List (Nm × Nat) → Nm → Except Err Nat
   | [], _ => .error .key
@@ -345,7 +408,23 @@ def resolveAll (tbl : List (Nm × Nat)) : List Nm → Except Err (List Nat)
       | .error e => .error e
       | .ok vs => .ok (v :: vs)
 
-/-- ITCH / OUCH / SQF: `Parser.parse(spec_file)` then `Generator(...).generate()` -/
+/-- the `key = f'{msg.id}-{msg.group}-{msg.direction}'` of the k-th, (k+1)-th … message of the harness' spec family: the id and
+    the direction (`incoming` for even k, `outgoing` for odd k) -/
+def msgKeys : Nat → List Nat → List (Nat × Nat)
+  | _, [] => []
+  | k, i :: rest => (i, k % 2) :: msgKeys (k + 1) rest
+
+/-- some key occurs twice -/
+def dupKey : List (Nat × Nat) → Bool
+  | [] => false
+  | a :: rest => rest.contains a || dupKey rest
+
+/-- the keys of `messages = {}; messages[key] = msg …` in dict order (a repeated key keeps its first position) -/
+def dictKeys : List (Nat × Nat) → List (Nat × Nat) → List (Nat × Nat)
+  | seen, [] => seen
+  | seen, a :: rest => if seen.contains a then dictKeys seen rest else dictKeys (seen ++ [a]) rest
+
+/-- ITCH / OUCH / SQF: `Parser.parse(spec_file, override_messages)` then `Generator(...).generate()` -/
 def planSoup (sem : Semantics) (st : ProcState) (impl : Impl) (spec : SoupSpec) (o : GenOpts) :
     ProcState × Except Err RelPlan :=
   -- Parser.parse: `FieldDef.Definitions` is a class attribute; it is assigned only `elif element.tag == 'fielddef-root'`
@@ -358,6 +437,9 @@ def planSoup (sem : Semantics) (st : ProcState) (impl : Impl) (spec : SoupSpec) 
   match resolveAll tbl spec.uses with
   | .error e => (st', .error e)
   | .ok resolved =>
+    -- `_parse_messages`: `if key in messages and not override_messages: raise ValueError` (messages-root comes after the
+    -- field definitions, records and enums in the spec files; with `override_messages` the later declaration wins)
+    if !o.override && dupKey (msgKeys 0 spec.msgs) then (st', .error .value) else
     let modName := prefix_ o.pfx ++ impl.str ++ sUnderscore ++ o.app
     let modAct : RelAction := ⟨modName ++ sPy, sem.genMode, [.soupModule impl o.app spec.id spec.msgs resolved]⟩
     let initAct : RelAction := ⟨sInit ++ sPy, sem.genMode, [.initLine modName]⟩
@@ -404,15 +486,96 @@ def versionOk (v : Nat) : Bool := v = 42 || v = 44 || v = 50 || v = 502
 /-- `'Fix42Session'` / `'Fix44Session'` / `'Fix50Session'` -/
 def clientSession (v : Nat) : Nat := if v = 42 then 42 else if v = 44 then 44 else 50
 
-/-- `parse()`: `types[field.get('type')]` — the 4.2 type table has no NUMINGROUP, so a 4.2 dictionary that defines a group
-    count field fails with KeyError while the `<fields>` section is read (before anything else happens) -/
-def typesKnown (spec_version : Nat) (counts : List Nm) : Bool := spec_version != 42 || counts.isEmpty
+/-! ### `version_types.py` -/
 
-/-- FIX: `parse(spec_file, version)` (no class-level state) then `Generator(...)` — whose `__attrs_post_init__` already
-    evaluates `definitions.get_codegen_context()` — then `.generate()` -/
-def planFix (sem : Semantics) (st : ProcState) (spec : FixSpec) (o : GenOpts) : ProcState × Except Err RelPlan :=
-  if !typesKnown spec.version spec.counts then (st, .error .key)
+abbrev TypeTable := GenFix.TypeTable
+
+/-- what `_fix_44_version_types` / `_fix_50_version_types` / `_fix_502_version_types` `.update()` the table they start from with -/
+def upd44 : TypeTable := [(GenFix.lit "SEQNUM", .FixInt), (GenFix.lit "NUMINGROUP", .FixInt)]
+def upd50 : TypeTable :=
+  [(GenFix.lit "FIXSTRING", .FixString), (GenFix.lit "MULTIPLECHARVALUE", .FixString), (GenFix.lit "NUMINGROUP", .FixInt), (GenFix.lit "SEQNUM", .FixInt)]
+def upd502 : TypeTable :=
+  [(GenFix.lit "LOCALMKTDATE", .FixLocalMktDate), (GenFix.lit "TZTIMEONLY", .FixTzTimeonly), (GenFix.lit "MULTIPLESTRINGVALUE", .FixMultipleValueString)]
+
+/-- `@cache def _fix_42_version_types()`: builds the dict once, returns that object ever after -/
+def cached42 (c : TCache) : TCache × TypeTable :=
+  match c.dict with
+  | some d => (c, d)
+  | none => ({ c with dict := some GenFix.types42 }, GenFix.types42)
+
+/-- `@cache def _fix_44_version_types()`: the first call updates the (cached) 4.2 dict in place and returns it -/
+def cached44 (c : TCache) : TCache × TypeTable :=
+  if c.done44 then cached42 c
   else
+    let r := cached42 c
+    let d := GenFix.updateAll r.2 upd44
+    ({ r.1 with dict := some d, done44 := true }, d)
+
+def cached50 (c : TCache) : TCache × TypeTable :=
+  if c.done50 then cached42 c
+  else
+    let r := cached42 c
+    let d := GenFix.updateAll r.2 upd50
+    ({ r.1 with dict := some d, done50 := true }, d)
+
+/-- `_fix_502_version_types` starts from `_fix_50_version_types()` -/
+def cached502 (c : TCache) : TCache × TypeTable :=
+  if c.done502 then cached42 c
+  else
+    let r := cached50 c
+    let d := GenFix.updateAll r.2 upd502
+    ({ r.1 with dict := some d, done502 := true }, d)
+
+/-- the documented table of a version (a new dict per call: `GenFix.supportedTypes`) -/
+def tableOf (v : Nat) : Except Err TypeTable :=
+  if v = 42 then .ok GenFix.types42 else if v = 44 then .ok GenFix.types44 else if v = 50 then .ok GenFix.types50
+  else if v = 502 then .ok GenFix.types502 else .error .value
+
+/-- `get_supported_types(version)`: ValueError for a version it does not know -/
+def typesFor (sem : Semantics) (c : TCache) (v : Nat) : TCache × Except Err TypeTable :=
+  if sem.freshTypeTables then (c, tableOf v)
+  else if v = 42 then ((cached42 c).1, .ok (cached42 c).2)
+  else if v = 44 then ((cached44 c).1, .ok (cached44 c).2)
+  else if v = 50 then ((cached50 c).1, .ok (cached50 c).2)
+  else if v = 502 then ((cached502 c).1, .ok (cached502 c).2)
+  else (c, .error .value)
+
+/-- every FIX type name of version_types.py, in the order of the 5.0SP2 table -/
+def allTypeNames : List Str := GenFix.types502.map (·.1)
+
+/-- the `type=` attribute of the dictionary field `F<n>` in the harness' spec family: INT / STRING by parity below 10, from
+    10 on the (n-10)-th type name (mod 29) — every name occurs, documented for the version or not -/
+def declTy (n : Nm) : Str :=
+  if n < 10 then (if n % 2 = 1 then GenFix.lit "INT" else GenFix.lit "STRING")
+  else allTypeNames.getD ((n - 10) % allTypeNames.length) []
+
+/-- `types[field.get('type')]` for the declared fields in document order; KeyError at the first unknown name -/
+def resolveTypes (tbl : TypeTable) : List Str → Except Err (List GenFix.TyCls)
+  | [] => .ok []
+  | t :: rest =>
+    match GenFix.aget t tbl with
+    | none => .error .key
+    | some c =>
+      match resolveTypes tbl rest with
+      | .error e => .error e
+      | .ok cs => .ok (c :: cs)
+
+/-- the type names of the `<fields>` section that are not the same in every spec: the `F<n>` fields, then the group count
+    fields (NUMINGROUP — which the 4.2 table does not have).  (BeginString, BodyLength, MsgType, CheckSum, Own<id> are STRING /
+    LENGTH / INT, known to every version.) -/
+def declared (spec : FixSpec) : List Str := spec.fields.map declTy ++ spec.counts.map fun _ => GenFix.lit "NUMINGROUP"
+
+/-- FIX: `parse(spec_file, version)` — `get_supported_types(version)`, then the declared field types are looked up — then
+    `Generator(...)`, whose `__attrs_post_init__` already evaluates `definitions.get_codegen_context()`, then `.generate()` -/
+def planFix (sem : Semantics) (st : ProcState) (spec : FixSpec) (o : GenOpts) : ProcState × Except Err RelPlan :=
+  let t := typesFor sem st.types spec.version
+  let st := { st with types := t.1 }
+  match t.2 with
+  | .error e => (st, .error e)
+  | .ok tbl =>
+  match resolveTypes tbl (declared spec) with
+  | .error e => (st, .error e)
+  | .ok resolved =>
   let s0 : FixState := ⟨if sem.resetContexts then [] else st.contexts, if sem.resetCounter then [] else st.counter⟩
   -- `message_context = [message.get_codegen_context(self) …]` is evaluated first and mutates Group.Contexts / the counters
   let k := ctxKids s0 spec.groups
@@ -423,7 +586,7 @@ def planFix (sem : Semantics) (st : ProcState) (spec : FixSpec) (o : GenOpts) : 
     let mp := prefix_ o.pfx ++ sFix ++ o.app
     let f (suffix : Str) (c : Chunk) : RelAction := ⟨mp ++ suffix ++ sPy, sem.genMode, [c]⟩
     let acts : List RelAction := [
-      f sFields (.fixFields spec.id spec.fields spec.counts),
+      f sFields (.fixFields spec.id spec.fields spec.counts resolved),
       f sGroups (.fixGroups mp k.1.contexts),                 -- `'groups': Group.Contexts`
       f sBodies (.fixBodies mp spec.id spec.msgFields k.2),
       f sMessages (.fixMessages mp spec.id spec.msgFields k.2),
@@ -484,9 +647,44 @@ def invoke (sem : Semantics) (w : World) (i : Inv) : World × Except Err Unit :=
   | .ok pl => (⟨r.1, applyPlan w.fs pl⟩, .ok ())
   | .error e => (⟨r.1, w.fs⟩, .error e)
 
+/-! ### the two halves of an invocation -/
+
+/-- does the FIX generator's context keep referring to the class attribute's list?  Not when every generation starts by
+    binding `Group.Contexts` to a new list (`resetContexts` and `rebindContexts`): then the captured list is the generator's own. -/
+def sharedGroupsOf (sem : Semantics) : Inv → Option Str
+  | .fix _ o => if sem.resetContexts && sem.rebindContexts then none else some (prefix_ o.pfx ++ sFix ++ o.app)
+  | _ => none
+
+/-- the entry point up to (not including) its call of `generate()`: the spec is parsed and generator object `k` constructed.
+    Everything that can fail in the modelled spec families fails here; the ASN.1 generator's constructor empties `op_dir`;
+    nothing is written. -/
+def construct (sem : Semantics) (w : World) (k : Nat) (i : Inv) : World × Except Err Unit :=
+  match (planGen sem w.st i).2 with
+  | .error e => (⟨(planGen sem w.st i).1, w.fs⟩, .error e)
+  | .ok rp =>
+    (⟨{ (planGen sem w.st i).1 with
+          gens := setGen (planGen sem w.st i).1.gens k ⟨i.dir, rp.acts, rp.modules, sharedGroupsOf sem i⟩ },
+      if rp.wipe then wipe w.fs i.dir else w.fs⟩, .ok ())
+
+/-- what `generate()` of a generator object writes *now*: the captured context, except for a groups list that is shared -/
+def GenObj.actsNow (obj : GenObj) (st : ProcState) : List RelAction :=
+  match obj.sharedGroups with
+  | none => obj.acts
+  | some mp => obj.acts.map fun a =>
+      if a.name = mp ++ sGroups ++ sPy then { a with chunks := [.fixGroups mp st.contexts] } else a
+
+/-- `generate()` of generator object `k` (`Err.state`: there is no such object — its construction failed or it belongs to
+    another process) -/
+def generate (_sem : Semantics) (w : World) (k : Nat) : World × Except Err Unit :=
+  match getGen w.st.gens k with
+  | none => (w, .error .state)
+  | some obj => (⟨w.st, applyActs w.fs ((obj.actsNow w.st).map (RelAction.at obj.dir))⟩, .ok ())
+
 def step (sem : Semantics) (w : World) : Ev → World
   | .inv i => (invoke sem w i).1
   | .newProcess => ⟨st0, w.fs⟩
+  | .construct k i => (construct sem w k i).1
+  | .generate k => (generate sem w k).1
 
 def run (sem : Semantics) (w : World) (evs : List Ev) : World := evs.foldl (step sem) w
 
@@ -534,9 +732,9 @@ inductive Stmt where
 
 /-- the registrations of the message classes of a soup-app module: the k-th message of the harness' spec family is
     `incoming` for even k and `outgoing` for odd k -/
-def msgRegs (impl : Impl) (app : Str) : Nat → List Nat → List Stmt
-  | _, [] => []
-  | k, i :: rest => .register (.msg impl app i (if impl = .ouch then k % 2 else 0)) :: msgRegs impl app (k + 1) rest
+def msgRegs (impl : Impl) (app : Str) (k : Nat) (msgs : List Nat) : List Stmt :=
+  -- the module holds one class per *key* (`override_messages`: a repeated key replaced the earlier message)
+  (dictKeys [] (msgKeys k msgs)).map fun x => .register (.msg impl app x.1 (if impl = .ouch then x.2 else 0))
 
 def ctxStmts (mp : Str) (c : GCtx) : List Stmt :=
   (c.entries.map fun e => match e with
@@ -548,7 +746,7 @@ def ctxStmts (mp : Str) (c : GCtx) : List Stmt :=
 def stmts : Chunk → List Stmt
   | .soupModule impl app _ msgs _ => msgRegs impl app 0 msgs
   | .initLine m => [.imp m]
-  | .fixFields _ fields counts => fields.map (fun n => .define (.fld n)) ++ counts.map fun g => .define (.cnt g)
+  | .fixFields _ fields counts _ => fields.map (fun n => .define (.fld n)) ++ counts.map fun g => .define (.cnt g)
   | .fixGroups mp ctxs => .imp (mp ++ sFields) :: ctxs.flatMap (ctxStmts mp)
   | .fixBodies mp _ fields top =>
     [.imp (mp ++ sFields), .imp (mp ++ sGroups)] ++ fields.map (fun n => .need (mp ++ sFields) (.fld n))
@@ -595,6 +793,12 @@ def importAfter (sem : Semantics) (w : World) (i : Inv) : Except Err Unit :=
   match (plan sem w.st i).2 with
   | .ok pl => importPkg (dirView (invoke sem w i).1.fs i.dir) pl.modules
   | .error e => .error e
+
+/-- the same observable right after `generate()` of generator object `k` -/
+def importAfterGenerate (sem : Semantics) (w : World) (k : Nat) : Except Err Unit :=
+  match getGen w.st.gens k with
+  | none => .error .state
+  | some obj => importPkg (dirView (generate sem w k).1.fs obj.dir) obj.modules
 
 /-- a configuration file (pyproject.toml, tox.ini) parses iff it is not the concatenation of several renderings
     (each rendering opens the `[project]` / `[tox]` section again) -/
